@@ -384,6 +384,15 @@ def load_then_evaluate(check: Check, rule: str = "C1-load") -> None:
             hooks = {"contains": lambda ex_, e, c, x: c is factory and x in hedges,
                      "method:construct": lambda ex_, e, recv, args, kw: hedges[args[0]] if recv is factory and args and args[0] in hedges else (_ for _ in ()).throw(Raised("ValueError", e)),
                      "method:infix_to_postfix": lambda ex_, e, recv, args, kw: postfix, "method:debug": lambda *a: None, "method:info": lambda *a: None}
+
+            def lookup(ex_, e, recv, args, kw=None, engine=engine):
+                name_ = args[0] if isinstance(args, list) else args
+                for v_ in engine.fields["variables"]:
+                    if v_.fields["name"] == name_:
+                        return v_
+                raise Raised("ValueError", e)
+
+            hooks.update({"subscript": lambda ex_, e, base, idx: lookup(ex_, e, base, [idx]), "method:variable": lookup, "method:input_variable": lookup})
             ex = AbsExec(load.qualname, hooks, helpers={k: v for k, v in load.cls.methods.items() if k in ("unload",) or (k.startswith("_") and not k.startswith("__"))})
             ex.concrete_strings = True
             me = MObj("Antecedent", {"text": infix, "expression": None})
